@@ -375,6 +375,9 @@ def pipe_families(pools=(1,)):
         out.append(make('P_cons_vs_feeder_p%d' % p, 1, p, 0, [P(1, 1), NEXT(1), NEXT(1)], [SEND(1, 1), CLOSE(1)], pipes=1))
         out.append(make('P_depth1_bp_p%d' % p, 1, p, 0, [P(1, 1), DEPTH(1, 1), SEND(1, 1), SEND(1, 2), NEXT(1), NEXT(1)], pipes=1))
         out.append(make('P_depth1_cons_vs_feeder_p%d' % p, 1, p, 0, [P(1, 1), DEPTH(1, 1), NEXT(1), NEXT(1), NEXT(1)], [SEND(1, 1), SEND(1, 2), CLOSE(1)], pipes=1))
+        # the consumer reads while the producer is throttled and the buffer is still full afterwards (burst over depth 1; depth lowered later)
+        out.append(make('P_depth1_burst3_p%d' % p, 1, p, 0, [P(1, 1), DEPTH(1, 1), SEND(1, 1), SEND(1, 2), SEND(1, 3), NEXT(1), NEXT(1), NEXT(1)], pipes=1))
+        out.append(make('P_lower_depth_burst_p%d' % p, 1, p, 0, [P(1, 1), SEND(1, 1), SEND(1, 2), S(1), DEPTH(1, 1), SEND(1, 3), NEXT(1), NEXT(1), NEXT(1)], pipes=1))
         out.append(make('P_feed_vs_SD_p%d' % p, 1, p, 0, [P(1, 1), SEND(1, 1), SEND(1, 2), CLOSE(1)], [S(1), D(1)], pipes=1))
         out.append(make('P_procgate_p%d' % p, 1, p, 1, [P(1, 1, g=1), SEND(1, 1), NEXT(1)], [FIRE(1)], [S(1)], pipes=1))
     return out
